@@ -372,7 +372,7 @@ def c12(tier):
 
 
 # ------------------------------------------------------------------------------------------------ C13
-SIG = {'call0': [], 'call1': ['int'], 'call2': ['int'] * 2, 'call3': ['int'] * 3, 'mcall': ['obj', 'int', 'int'], 'op': ['int', 'int'], 'cmp': ['int', 'int'],
+SIG = {'call0': [], 'call1': ['int'], 'call2': ['int'] * 2, 'call3': ['int'] * 3, 'rcall2': ['int'] * 2, 'rcall3': ['int'] * 3, 'mcall': ['obj', 'int', 'int'], 'op': ['int', 'int'], 'cmp': ['int', 'int'],
        'obj0': ['par'], 'obj1': ['par', 'int'], 'obj2': ['par', 'int', 'int'], 'obj3': ['par', 'int', 'int', 'int'],
        'arrs': ['size'], 'arrc0': ['size0', 'int'], 'arrc1': ['size1', 'int'], 'arrc2': ['size2', 'int'], 'arrc3': ['size3', 'int'],
        'index': ['arr', 'idx'], 'setindex': ['arr', 'idx', 'int'], 'oindex': ['obj', 'idx'], 'osetindex': ['obj', 'idx', 'int'], 'getfield': ['obj'], 'setfield': ['obj', 'int'], 'if': ['bool', 'int', 'int'],
@@ -417,6 +417,8 @@ def evalorder_ast(shape):
     def build(c, a):
         if c.startswith('call'):
             return Call('f' + c[4:], a)
+        if c.startswith('rcall'):
+            return Call('r' + c[5:], a)
         if c == 'mcall':
             return MC(a[0], 'm', a[1:])
         if c == 'op':
@@ -455,7 +457,8 @@ def evalorder_ast(shape):
     prelude = [Let('n', I(0)),
                Fun('f0', [], Blk([Pr('f0;'), I(10)])), Fun('f1', ['a'], Blk([Pr('f1;'), V('a')])),
                Fun('f2', ['a', 'b'], Blk([Pr('f2;'), Op('-', V('a'), V('b'))])),
-               Fun('f3', ['a', 'b', 'c'], Blk([Pr('f3;'), Op('-', Op('-', V('a'), V('b')), V('c'))]))]
+               Fun('f3', ['a', 'b', 'c'], Blk([Pr('f3;'), Op('-', Op('-', V('a'), V('b')), V('c'))])),
+               Fun('r2', ['a', 'b'], Op('-', V('b'), V('a'))), Fun('r3', ['a', 'b', 'c'], Op('-', V('c'), Op('-', V('b'), V('a'))))]     # one-line bodies, parameters used in reverse order
     return Top(prelude + [Pr(' R=~\\n', [e])])
 
 
@@ -480,6 +483,11 @@ COUNT_PROBES = [
      'function ==(k) -> begin this.n <- this.n + 100; true end; function get(i) -> begin this.n <- this.n + 1000; i end; function m() -> begin this.n <- this.n + 10000; 0 end end; let one = 1; '
      'print("~ ", array(3, d + 1)); print("~ ", array(2, d * one)); print("~ ", array(2, d == null)); print("~ ", array(2, d[0])); print("~ ", array(2, d.m())); print("~ ", array(2, one + d.n)); print("~\\n", d.n)'),
     ('array-of-size-zero-never-runs-its-initializer', 'let missing = null; let z = 0; print("~ ~\\n", array(0, missing + 1), array(z, 1 / z)); print("~\\n", array(1, missing == null))'),
+    ('one-line-helpers-and-argument-order', 'let n = 0; function t(v) -> begin n <- n + 1; print("t~=~;", n, v); v end; function below(limit, value) -> value < limit; function first(a, b) -> a; function twice(a) -> a + a; '
+     'function swap3(a, b, c) -> c * 100 + b * 10 + a; let x = 5; print("~ ", below(t(10), t(3))); print("~ ", below(x, x <- 0)); print("~ ", first(t(1), t(2))); print("~ ", twice(t(4))); print("~ ~\\n", swap3(t(1), t(2), t(3)), n)'),
+    ('condition-compared-with-true', 'let flag = 1; if flag == true then print("T;") else print("F;"); let o = object begin function ==(k) -> begin print("eq;"); false end end; if o == true then print("T;") else print("F;"); '
+     'let jobs = 0; function pending() -> begin jobs <- jobs + 1; print("p~;", jobs); jobs end; while pending() == true do print("never;"); if array(1, 0) == true then print("T;") else print("F;"); '
+     'if (1 == true) == false then print("T;") else print("F;"); if true == flag then print("T;") else print("F;"); if flag != false then print("T\\n") else print("F\\n")'),
     ('discarded-operator-on-plain-operands', 'let o = object begin let n = 0; function +(k) -> begin this.n <- this.n + k; this.n end; function ==(k) -> begin this.n <- this.n + 100; true end; function <(k) -> begin this.n <- this.n + 1000; false end end; let five = 5; '
      'o + 5; o + five; begin o + 1; 0 end; o == null; o < 3; let i = 0; while i < 2 do begin o + 10; i <- i + 1 end; if true then o + 20 else o + 40; function f() -> begin o + 7; 0 end; f(); print("~\\n", o.n)'),
     ('discarded-operator-on-fields', 'let o = object begin let n = 0; let w = object begin let v = 2 end; function *(k) -> begin this.n <- this.n + k; this end end; o * o.w.v; o.w.v * 3; o * 1 * 2; o.*(4); print("~\\n", o.n)'),
@@ -493,7 +501,7 @@ COUNT_PROBES = [
 def c13(tier):
     chk = Check('C13', tier)
     chk.rule = ('TLC enumerates all typed expression shapes to depth 2 (MC_EvalOrder: calls with 0-3 arguments, method call, operators, object with parent and 0-3 fields, '
-                'array(size, constant), array(size 0-3, compound), index, indexed and field assignment, both also on an object whose get / set announce the arguments they receive, if, while with 0-2 iterations, print 0-3, let, assign); every operand '
+                'calls of one-line functions that use their parameters in reverse order, array(size, constant), array(size 0-3, compound), index, indexed and field assignment, both also on an object whose get / set announce the arguments they receive, if, while with 0-2 iterations, print 0-3, let, assign); every operand '
                 'position holds a numbered marker begin print("k;"); v end or a nested shape; the printed marker sequence (order and multiplicity) prescribed by FMLSource, '
                 'run by TLC, must equal what the real pipeline prints. Quick: all shapes with at most one nested operand + a 1/24 stride of the rest; thorough: all. distinct_nontrivial = distinct shapes judged.')
     exe = build('debug')
@@ -550,7 +558,7 @@ def dispatch_ast(d):
     es = [Let('e', endv)]
     prev = 'e'
     for i, defs in enumerate(chain, start=1):
-        ms = [Let('tag', I(i))]
+        ms = [Let('tag', I(i))] if defs != '0' else []
         if 'F' in defs:
             ms.append(Let('m', I(70 + i)))
         if 'M' in defs:
@@ -667,7 +675,7 @@ def c14(tier):
     chk.rule = ('TLC enumerates (MC_Objects) parent chains of depth 0-3 ending in null/int/bool/array whose levels define one of 8 member sets (m, +, get, set, m with another parameter count, get without parameters; overriding) x 15 '
                 'calls on the outermost object (right/wrong argument counts, operators, a[i], a[i] <- v, get/set by name, unknown method, field access), and aliasing templates '
                 'storage kind^2 x target x mutation (+ value semantics of int/bool/null); FMLSource (lookup along the chain, arity check where found, built-ins at the end, shared heap '
-                'cells), run by TLC, prescribes each outcome; `this` in an inherited method is the object that defines the method (the host object of the README). Quick: all chains of depth <= 1 + a stride of deeper ones, all '
+                'cells), run by TLC, prescribes each outcome; plus programs in which ONE call site meets receivers that define / inherit / override / inherit through two levels the method, in every order; `this` in an inherited method is the object that defines the method (the host object of the README). Quick: all chains of depth <= 1 + a stride of deeper ones, all '
                 'aliasing templates; thorough: all. distinct_nontrivial = distinct descriptors judged.')
     exe = build('debug')
     wd = scratch('c14')
@@ -680,6 +688,10 @@ def c14(tier):
     for d in ds:
         ast = {'dispatch': dispatch_ast, 'alias': alias_ast, 'value': value_ast}[d[0]](d)
         progs.append({'name': 'obj:' + '/'.join(x if x else '-' for x in d), 'text': unparse(ast), 'ast': strip_marks(ast)})
+    # one call site, receivers of several classes in every order
+    poly = pool.polymorphic_site_programs(limit=tier_sizes(tier, 120, None), rng=random.Random(seed() + 3))
+    progs += poly
+    chk.notes['polymorphic_call_site_programs'] = len(poly)
     outs, vs = judge_programs(chk, exe, progs, wd, 'c14', budget=3000)
     amb = len([v for v in vs.values() if v.get('amb')])
     chk.notes['programs_with_delegated_method_found_in_parent'] = amb
@@ -733,6 +745,10 @@ FAULTS = {
     'duplicate-field': lambda: Obj(N(), [Let('q', I(1)), Let('q', I(2))]),
     'duplicate-method': lambda: Obj(N(), [Fun('q', [], I(1)), Fun('q', [], I(2))]),
     'operator-on-array': lambda: Op('==', V('ar'), V('ar')),
+    # an object that extends a primitive is not that primitive when it is an ARGUMENT
+    'operand-kind-boxed-both': lambda: Op('+', Obj(I(40), []), Obj(I(2), [])),
+    'operand-kind-boxed-argument': lambda: Op('*', I(4), Obj(I(2), [Let('w', I(1))])),
+    'operand-kind-boxed-boolean': lambda: Op('&', Obj(B(True), []), Obj(B(True), [])),
     # fields are not inherited: only methods are looked up along the parent chain
     'inherited-field-read': lambda: GF(V('kid'), 'fld'),
     'inherited-field-assign': lambda: SF(V('kid'), 'fld', I(11)),
